@@ -66,14 +66,14 @@ def layouts(rng, full=False):
 
 
 def is_yang_string(b):
-    """what buf_store_char() accepts (is_yangutf8char as coded: plane 4 is rejected)"""
+    """what buf_store_char() accepts: the yang-char of RFC 7950 section 14 (plane 4 too since /repo commit f25b870)"""
     try:
         u = b.decode("utf-8")
     except UnicodeDecodeError:
         return False
     for ch in u:
         cp = ord(ch)
-        if not gens.is_yang_char(cp) or 0x40000 <= cp <= 0x4FFFF:
+        if not gens.is_yang_char(cp):
             return False
     return True
 
